@@ -22,7 +22,7 @@ RULE = (
     "fewer tokens than fields after a longer one, or a non-missing value; distinct by full case."
 )
 ASSUMPTIONS = [
-    "for multi-character delimiters the guard is 'no character of the delimiter occurs in a rendering' (stronger than the property's wording; DESIGN section 2)",
+    "no rendering contains the delimiter as a substring (the property's wording), and the self-overlapping corner is excluded: splitting the joined tokens must give the tokens back (Spec.C11.tokensOk)",
     "the delimiter is not made of white space only (tokens are stripped)",
 ] + c01.ASSUMPTIONS
 TRUSTED = c01.TRUSTED
@@ -183,8 +183,8 @@ def random_case(rng):
     fields, values, fam = [], [], []
     for _ in range(n):
         fd, v = c01.make_field(rng, rng.choice([0, 0, 3]), fam)
-        if fd["k"] == "flt" and codec.dec_str(fd["sep"]) in d:
-            fd["sep"] = codec.enc_str("." if "." not in d else ",")
+        if fd["k"] == "flt" and codec.dec_str(fd["sep"]) == d:
+            fd["sep"] = codec.enc_str("." if "." != d else ",")
         fields.append(fd)
         values.append(v)
     if rng.random() < 0.3:
